@@ -74,6 +74,12 @@ func (d *defineBuiltinMethod) defineBuiltinInstanceMethod(
 
 	existingT := base.GetMethodT(frame, d.targetClass, method, false)
 
+	// a method found through the inheritance chain belongs to an ancestor: this
+	// declaration overrides it, it is not a further overload of the ancestor's
+	if existingT != nil && existingT.DefinedClass != d.targetClass {
+		existingT = nil
+	}
+
 	if existingT != nil {
 		existingT.Overloads = append(existingT.Overloads, *methodT)
 
@@ -116,6 +122,10 @@ func (d *defineBuiltinMethod) defineBuiltinStaticMethod(
 	)
 
 	existingT := base.GetClassMethodT(frame, d.targetClass, method, false)
+
+	if existingT != nil && existingT.DefinedClass != d.targetClass {
+		existingT = nil
+	}
 
 	if existingT != nil {
 		existingT.Overloads = append(existingT.Overloads, *methodT)
